@@ -19,7 +19,7 @@ func c14Plan(tier string) histPlan {
 	if tier == "thorough" {
 		return histPlan{Enum: gen.EnumParams{MaxAdds: []int{5, 3, 2}}, Rand: 100000, Tall: 60}
 	}
-	return histPlan{Enum: gen.EnumParams{MaxAdds: []int{4, 2, 2}}, Rand: 2000, Tall: 2}
+	return histPlan{Enum: gen.EnumParams{MaxAdds: []int{4, 2, 2}}, Rand: 5000, Tall: 4}
 }
 
 func init() {
